@@ -79,7 +79,7 @@ def main():
             items.append((sid, d))
     props = ["C%02d" % i for i in range(1, 21) if os.path.exists(os.path.join(HERE, "rules", "C%02d.py" % i))]
     caught = missed = 0
-    with ThreadPoolExecutor(8) as ex:
+    with ThreadPoolExecutor(14) as ex:
         for sid, prop, code, out, others in ex.map(lambda it: one(it, args, props), items):
             if args.expect_clean:
                 status = {1: "FALSE-ALARM", 0: "silent", 2: "undecided"}.get(code, str(code))
